@@ -423,6 +423,12 @@ class Model(object):
             raise Invalid("library would write past the declared length (user contract)")
         return self.expect((cap, fpad(s + "!!", cap)))
 
+    def op_char_arr(self, n, ln, _t):
+        tot = 0
+        for i in range(1, n + 1):
+            tot += (i % (ln + 1)) + 100
+        return self.expect((tot,))
+
     def op_ref_item(self, s, _b, _t):
         if self.lib_static is None:
             self.lib_static = self.new_obj(7001, owner="library")
@@ -452,7 +458,7 @@ OPS_COMMON = ["item_default", "item_val", "item_delete", "item_value", "item_set
               "char_out", "char_ret", "char_inout",
               "vec_sum", "vec_iota", "vec_inc", "vec_alloc", "vec_ret", "vec_str_count",
               "arr_new", "arr_lib", "arr_new_alloc", "cap_delete", "cap_scope",
-              "arr_pat", "arr_sum", "char_grow", "ref_item", "vec_ret_d"]
+              "arr_pat", "arr_sum", "char_grow", "ref_item", "vec_ret_d", "char_arr"]
 
 TEXTS = ["", " ", "a", "hello", "two words", "  lead", "trail  ", "exactly-twenty-chars", "x" * 40,
          "MiXeD 123 !?", "tab-less ~ text", "ends with blank "]
@@ -502,6 +508,8 @@ def gen_op(rng, model, enabled, uniq):
     if name == "char_out":
         text = rng.choice([x for x in TEXTS if len(x) <= 19])
         return [name, rng.choice([len(text) + 1, len(text) + 2, 20, 21, 33]), 0, text]
+    if name == "char_arr":
+        return [name, rng.choice([0, 1, 2, 3, 6]), rng.choice([1, 2, 4, 9])]
     if name == "vec_str_count":
         return [name, rng.choice([0, 1, 2, 5]), rng.choice([1, 3, 8])]
     if name in ("arr_new", "arr_pat"):
@@ -527,7 +535,7 @@ def gen_op(rng, model, enabled, uniq):
 
 LEAKABLE = ["item_value", "item_label", "use_item", "sum_items", "box_value", "str_ref", "str_val", "str_lib",
             "str_in", "str_out", "str_inout", "char_out", "char_ret", "vec_sum", "vec_iota", "vec_alloc", "vec_ret",
-            "arr_lib", "arr_sum", "bad_vec_sum", "bad_arg", "bad_arr_sum"]
+            "arr_lib", "arr_sum", "char_arr", "bad_vec_sum", "bad_arg", "bad_arr_sum"]
 PY_ONLY = ["box_delete", "bad_vec_sum", "bad_arg", "nomem", "bad_arr_sum"] + ["leak_" + n for n in LEAKABLE]
 # char_inout: the Python wrapper hands the str object's own UTF-8 buffer to the library, which
 # upper-cases it in place and thereby corrupts interned strings of the interpreter (a C03 defect;
